@@ -16,6 +16,8 @@ import os, re, json, collections, time, concurrent.futures
 from vlib import *
 
 PROP = "C11"
+# several JVMs run side by side: keep each one's GC thread pool small (vlib passes this after -Xmx)
+GC = " -XX:ParallelGCThreads=2"
 INTS = re.compile(r"-?\d+")
 
 
@@ -166,7 +168,7 @@ def heap_layer(v, tier, seed):
             os.unlink(csv)
         cfg = cfg_from("TimerHeap_q.cfg", "TimerHeap_%s.cfg" % tag, NT=str(nt), Keys=keys, Pairs=le,
                        MaxSeg=str(maxseg), Emit='"%s"' % csv)
-        r = tlc_must_pass("TimerHeap " + tag, "TimerHeap.tla", cfg, timeout=1500)
+        r = tlc_must_pass("TimerHeap " + tag, "TimerHeap.tla", cfg, timeout=1500, workers=4, heap="4g" + GC)
         v.add_model("TimerHeap_%s (NT=%d Keys=%s C=8, complete graph)" % (tag, nt, keys), r)
         if r.violated:
             v.violation("spec TimerHeap (%s) violates %s: the transcribed heap algorithm breaks the reference" % (tag, r.violated),
@@ -206,7 +208,7 @@ def heap_layer(v, tier, seed):
     def onejob(j):
         name, cfg, mut = j
         return tlc_must_pass(name, "TimerHeap.tla", cfg, timeout=2400 if tier == "thorough" else 600, workers=4,
-                             metaname="C11_" + os.path.basename(cfg), heap="4g")
+                             metaname="C11_" + os.path.basename(cfg), heap="4g" + GC)
     with concurrent.futures.ThreadPoolExecutor(4) as ex:
         results = list(ex.map(onejob, jobs))
     for (name, cfg, mut), r in zip(jobs, results):
@@ -228,7 +230,7 @@ def heap_layer(v, tier, seed):
         cfg = cfg_from("TimerHeap_sim.cfg", "TimerHeap_sim_run%d.cfg" % i, Emit='"%s"' % csvs[i], SimLen=str(simlen))
         # (TLC's RandomElement stream is per process: one worker per process, several processes)
         return tlc_must_pass("TimerHeap simulate", "TimerHeap.tla", cfg, timeout=1500, simulate=nsim, depth=simlen + 2,
-                             seed=seed * 1000 + i, workers=1, metaname="C11_heap_sim%d" % i, heap="2g")
+                             seed=seed * 1000 + i, workers=1, metaname="C11_heap_sim%d" % i, heap="2g" + GC)
     with concurrent.futures.ThreadPoolExecutor(nproc) as ex:
         rs = list(ex.map(one, range(nproc)))
     bad = [r for r in rs if r.violated]
@@ -300,7 +302,7 @@ def timer_layer(v, tier, seed):
     def onejob(j):
         name, cfg, mut, liveness = j
         return tlc_must_pass(name, "Timer.tla", cfg, timeout=3000 if tier == "thorough" else 900, workers=4,
-                             metaname="C11_" + os.path.basename(cfg), heap="6g")
+                             metaname="C11_" + os.path.basename(cfg), heap="6g" + GC)
     with concurrent.futures.ThreadPoolExecutor(4 if tier == "quick" else 3) as ex:
         results = list(ex.map(onejob, jobs))
     for (name, cfg, mut, liveness), r in zip(jobs, results):
@@ -379,7 +381,7 @@ def probes_present():
 
 def validate_timer_trace(path, meta):
     r = tlc("TimerTrace.tla", "TimerTrace.cfg", workers=1, timeout=900, env={"TRACE": path}, dfs=True,
-            metaname=meta, heap="2g", extra=["-difftrace"])
+            metaname=meta, heap="2g" + GC, extra=["-difftrace"])
     if r.timeout:
         raise Broken("trace validation timed out (%s)" % path)
     if r.rc != 0 and r.violated is None and not r.accepted:
